@@ -47,6 +47,7 @@ class T:
         self.cdens = f("constrained_density", U, U, R)   # (trace, constraint): log-density of constrained choices
         self.agrees = f("agrees", U, U, B)               # (choices, constraint)
         self.fresh = f("introduces_new_choice", U, U, U, U, B)   # (G, trace, request, argdiffs)
+        self.covers_all = f("constraint_covers_every_choice", U, U, U, B)   # (G, constraint, args)
         self.d_primal, self.d_tangent = f("d_primal", U, U), f("d_tangent", U, U)
         self.d_nc_all, self.d_is_tree = f("d_all_nochange", U, B), f("d_is_diff_tree", U, B)
         self.mk_nc, self.mk_uc, self.mk_diff = f("mk_no_change", U, U), f("mk_unknown_change", U, U), f("mk_tree_diff", U, U, U)
@@ -116,6 +117,8 @@ class T:
         c.assume(w == self.cdens(t, cn))                       # C03.weight for G
         c.assume(self.agrees(self.tr_choices(t), cn))          # C03.agree for G
         c.assume(self.cdens(t, self.EMPTY) == 0)
+        # C03 corollary for G: a constraint covering every choice gives weight == score
+        c.assume(z3.Implies(self.covers_all(g.t, cn, a), w == self.tr_score(t)))
         # an empty constraint reduces generate to simulate with the same key (C03/C35 for G)
         c.assume(z3.Implies(cn == self.EMPTY, t == self.sim(g.t, k, a)))
         return (UVal(t, "Trace"), SReal(w))
@@ -367,6 +370,27 @@ class Theory:
         from . import dist, incr
         dist.install(I)
         incr.install(I)
+
+        # observational meaning of concrete choice-map nodes when they flow into abstract callees (C17 lemmas):
+        #   Static({})                      is the empty map
+        #   Switch(idx, [m_0..m_{n-1}])     (built only by Switch.build / get_inner_map, so m_j is masked by j == idx)
+        #                                   is m_idx, and empty when idx is out of range
+        def chm_switch_meaning(I, o):
+            idx, chms = o.fields["idx"], o.fields["chms"]
+            if not isinstance(chms, list):
+                return None
+            it = zint(idx)
+            r = t.EMPTY
+            for j in range(len(chms) - 1, -1, -1):
+                r = z3.If(it == j, I.to_u(chms[j]), r)
+            _note("C17 lemma: ChoiceMap.switch(idx, cs) is observationally cs[idx] (empty when idx is out of range)")
+            return r
+
+        def chm_static_meaning(I, o):
+            if isinstance(o.fields.get("mapping"), dict) and not o.fields["mapping"]:
+                return t.EMPTY
+            return None
+        I.to_u_hooks = {CM + ":Switch": chm_switch_meaning, CM + ":Static": chm_static_meaning}
         I.abstract_classes = {
             "Trace": GF + ":Trace", "GenerativeFunction": GF + ":GenerativeFunction", "ChoiceMap": CM + ":ChoiceMap",
             "Selection": CM + ":Selection", "EditRequest": CONCEPTS + ":EditRequest",
